@@ -2799,7 +2799,7 @@ class StateEngine(object):
             else:
                 asl_state_Parallel_delegate()
 
-        def get_start_index(context):
+        def get_start_index(context, map_state_event=False):
             """
             Boilerplate to retrieve the start index of the Map ItemProcessor or
             Iterator. This is used in the implementation of MaxConcurrency. The
@@ -2813,7 +2813,17 @@ class StateEngine(object):
             start = 0
             context_state = context["State"]
             if "Branch" in context_state and len(context_state["Branch"]):
-                iterator_range = context_state["Branch"][-1].get("Range", "0:0")
+                branch_info = context_state["Branch"][-1]
+                """
+                For the event of a Map state itself only the entry left by
+                re-entering that Map state (which has no "Index") belongs to
+                it. Otherwise the Map state is nested in a Branch or Iterator
+                and the entry, and its "Range", is that of the enclosing Map
+                or Parallel state's own Branch, so the Map starts at zero.
+                """
+                if map_state_event and "Index" in branch_info:
+                    return 0
+                iterator_range = branch_info.get("Range", "0:0")
                 start = int(iterator_range.split(":")[0])
 
             return start
@@ -2935,7 +2945,7 @@ class StateEngine(object):
                 if length and not "Branch" in context_state:
                     context_state["Branch"] = []
 
-                start = get_start_index(context)
+                start = get_start_index(context, True)
                 if length:
                     if start == 0:
                         if len(context_state["Branch"]) > 0:
@@ -3110,7 +3120,7 @@ class StateEngine(object):
             the "start" index to ensure we only set the RetryTimeout for
             the first "batch".
             """
-            if get_start_index(context) == 0:
+            if get_start_index(context, True) == 0:
                 retry_timeout = context["State"].get("RetryTimeout", 0)
             else:
                 retry_timeout = 0
@@ -3524,7 +3534,7 @@ class StateEngine(object):
         set we will re-enter the Map state, possibly several times, to process
         the next batch of items so again we want to suppress the history update.
         """
-        reentered_map = state_type == "Map" and get_start_index(context) != 0
+        reentered_map = state_type == "Map" and get_start_index(context, True) != 0
         if not context["State"].get("RetryCount") and not reentered_map:
             self.update_execution_history(
                 state_machine,
